@@ -804,6 +804,21 @@ static int is_bufop(int code)
 	}
 }
 
+/* the serialized tables of a scanner are loaded once and shared by all its instances:
+ * 0 not loaded, 2 some instance is loading them, 1 loaded */
+static int vt_tables_state(const sim_scanner_vt *vt)
+{
+	int i, st = 0;
+	for (i = 0; i < ninst; i++)
+		if (insts[i].vt == vt) {
+			if (insts[i].tables_loaded == 1)
+				return 1;
+			if (insts[i].tables_loaded == 2)
+				st = 2;
+		}
+	return st;
+}
+
 static int resolve(sim_inst *I, const plan_op *po, sim_xop *x, int in_action)
 {
 	const sim_scanner_vt *vt = I->vt;
@@ -971,7 +986,13 @@ static int resolve(sim_inst *I, const plan_op *po, sim_xop *x, int in_action)
 		 * after yylex returned 0, or from yywrap / an <<EOF>> action */
 		if (po->code == SOP_SET_YYIN && !in_action && I->lexed && !I->at_eof && x->a != 2)
 			return 0;
-		s = fresh_source(I);
+		s = -1;
+		if (x->a == 2 && !(I->n_setyyin & 3) && I->depth > 0 && I->bufs[I->stack[I->depth - 1]].src >= 0)
+			/* every other switch_streams() names the stream the current buffer
+			 * already reads: the buffer is replaced all the same */
+			s = I->bufs[I->stack[I->depth - 1]].src;
+		if (s < 0)
+			s = fresh_source(I);
 		if (s < 0)
 			return 0;
 		x->h = s;
@@ -995,8 +1016,12 @@ static int resolve(sim_inst *I, const plan_op *po, sim_xop *x, int in_action)
 			return 0;
 		if (I->lexed && I->depth == 0)
 			return 0;   /* no current buffer: not a permitted history */
-		if (vt->has_tables && I->tables_loaded != 1)
-			return 0;   /* a --tables-file scanner must load its tables first */
+		/* a --tables-file scanner must load its tables first; while another
+		 * instance of the same scanner is loading them this one waits */
+		while (vt->has_tables && I->tables_loaded != 1 && vt_tables_state(vt) == 2)
+			sim_yield();
+		if (vt->has_tables && I->tables_loaded != 1 && vt_tables_state(vt) != 1)
+			return 0;
 		if (I->depth == 0 && !I->yyin_set) {
 			/* never let the scanner fall back to the real stdin */
 			s = fresh_source(I);
@@ -1013,7 +1038,7 @@ static int resolve(sim_inst *I, const plan_op *po, sim_xop *x, int in_action)
 		return !in_action;
 	case SOP_TABLES_LOAD:
 		x->a = lmod(po->a, ntfiles > 0 ? ntfiles : 1);
-		return !in_action && vt->has_tables && !I->tables_loaded && ntfiles > 0;
+		return !in_action && vt->has_tables && !I->tables_loaded && vt_tables_state(vt) == 0 && ntfiles > 0;
 	case SOP_TABLES_DESTROY:
 		return !in_action && vt->has_tables;
 	case SOP_NOP:
